@@ -305,8 +305,19 @@ func cursorOracle(c *kit.Case) error {
 			opts := text.FindClosureOptions{Nesting: bits&1 != 0, Newline: bits&2 != 0, CodeSpan: bits&4 != 0, Advance: bits&8 != 0}
 			l0, p0 := rd.Position()
 			before := m.rest()
-			_, found := rd.FindClosure('[', ']', opts)
+			segs, found := rd.FindClosure('[', ']', opts)
 			l1, p1 := rd.Position()
+			if found {
+				// what it returns are positions as well: inside the source, and the last one ends at the closer it reports
+				for i := 0; i < segs.Len(); i++ {
+					if sg := segs.At(i); sg.Start < 0 || sg.Start > sg.Stop || sg.Stop > len(src) {
+						return fail("findclosure-segment", "FindClosure returned the segment %v for a source of %d bytes", sg, len(src))
+					}
+				}
+				if last := segs.At(segs.Len() - 1); last.Stop >= len(src) || src[last.Stop] != ']' {
+					return fail("findclosure-segment", "FindClosure reported a closer, but its last segment %v does not end at a ']'", last)
+				}
+			}
 			if !opts.Advance {
 				if l0 != l1 || p0 != p1 {
 					return fail("findclosure-moved", "FindClosure without Advance changed the position from %d,%v to %d,%v", l0, p0, l1, p1)
